@@ -176,6 +176,11 @@ pub const WIN_SEEDS: &[&[u8]] = &[
 pub const NAME_POOL: &[&[u8]] = &[
     b".", b"..", b"a", b"b", b"b.txt", b".hidden", b"a.", b"a..b", b"...", b"..a", b"c.tar.gz",
     b"\xc3\xa9", b"\xff", b"a:b", b"a?b", b"a|b", b"a\0b", b"x y", b"UNC", b"C:", b"?",
+    // a dictionary of the names the library itself knows about (the reserved DOS device names of
+    // `constants::windows::RESERVED_DEVICE_NAMES`, in both cases, bare and with an extension) and of
+    // characters whose LOW BYTE is a separator / forbidden byte (U+042F, U+015C, U+012F, U+203A …)
+    b"CON", b"PRN", b"AUX", b"NUL", b"COM1", b"COM0", b"LPT1", b"LPT9", b"con", b"nul", b"aux.txt", b"NUL.tar.gz", b"COM10",
+    "\u{42f}\u{43d}\u{430}".as_bytes(), "a\u{15c}".as_bytes(), "\u{12f}".as_bytes(), "\u{203a}x".as_bytes(), "\u{62f}".as_bytes(), "\u{1f62f}".as_bytes(), "\u{100}".as_bytes(),
 ];
 
 /// mostly well-formed structured random path for encoding `win`
@@ -413,6 +418,33 @@ pub fn dom_args(win: bool, tier: &str, seed: u64) -> Vec<Vec<u8>> {
     }
     for n in [16usize, 17, 33, 65, 257] {
         v.push((0..n).map(|k| b'a' + (k % 26) as u8).collect());
+    }
+    // DEEP arguments: component counts around the limits of narrow integers (a depth counter kept in
+    // i8 / u8 / i16 …), pure descents and descents followed by as many / one more `..`
+    {
+        let sep: u8 = if win { b'\\' } else { b'/' };
+        let mut counts = vec![127usize, 128, 256];
+        if t {
+            counts.extend([126usize, 129, 255, 257]);
+        }
+        if t {
+            counts.extend([32767usize, 32768, 65535, 65536, 65537]);
+        }
+        for n in counts {
+            let mut down: Vec<u8> = Vec::new();
+            for _ in 0..n {
+                down.push(b'a');
+                down.push(sep);
+            }
+            v.push(down.clone());
+            let mut updown = down.clone();
+            for _ in 0..n {
+                updown.extend_from_slice(&[b'.', b'.', sep]);
+            }
+            v.push(updown.clone());
+            updown.extend_from_slice(b"..");
+            v.push(updown);
+        }
     }
     // every byte value in the FIRST position of an argument
     for b in 0..=255u8 {
